@@ -165,6 +165,8 @@ std::string OpResult::line() const
 	}
 	if (!out.empty())
 		s += " stdout=\"" + esc(out) + "\"";
+	if (stdin_read)
+		s += " stdin_read=" + std::to_string(stdin_read);
 	if (fail_fired)
 		s += " allocfail=" + fail_site;
 	if (death != D_NONE)
@@ -678,6 +680,7 @@ static void post_call()
 	OpResult &r = *E->cur;
 	std::string o = W.poll_stdout();
 	r.out += o;
+	r.stdin_read += W.poll_stdin();
 	if (W.fail_fired) {
 		r.fail_fired = true;
 		r.fail_site = W.fail_site;
